@@ -143,6 +143,18 @@ def gen_pairs(ctx, n):
         x, y = [d1, other], [other, d2]
         if FAM.in_universe(x, y):
             out.append((x, y))
+    # dictionaries compared by digest (items of a list) whose difference sits under a falsy key: 0, '', None, False, 0.0, ()
+    for fk in [0, '', None, False, 0.0, ()]:
+        for kind in range(3):
+            d1 = {fk: 1, 'k': 'v'}
+            d2 = {fk: 2, 'k': 'v'} if kind == 0 else ({'k': 'v'} if kind == 1 else {fk: [1, {fk: 'deep'}], 'k': 'v'})
+            if kind == 2:
+                d1 = {fk: [1, {fk: 'other'}], 'k': 'v'}
+            fill = ctx.rng.choice([[7], ['z', 3], []])
+            w = ctx.rng.choice([lambda v: v, lambda v: {'rows': v}, lambda v: [v, 0]])
+            x, y = w([d1] + fill), w(list(reversed(fill)) + [d2])
+            if FAM.in_universe(x, y):
+                out.append((x, y))
     # dictionaries inside order-ignored lists that differ only under double-underscore keys (not compared by default), or also elsewhere
     for _ in range(max(8, n // 10)):
         base = {'name': ctx.rng.choice(['a', 'b']), 'n': ctx.rng.randint(0, 3), '__typename': 'T', '__id': ctx.rng.randint(1, 5)}
